@@ -125,9 +125,12 @@ def build():
         x = mk_instr(ctx, core.SetInstruction, ["reg", "int32"])
         sub = ctx.call(Subroutine, instructions=[x], app_id=app, netqasm_version=(v0, v1))
         ctx.call(bytes, sub)
-        what = ctx.choice("update", ["app id", "operand", "both"])
+        what = ctx.choice("update", ["app id", "operand", "both", "instantiate"])
         if what in ("app id", "both"):
             ctx.setattr(sub, "app_id", app2)
+        elif what == "instantiate":
+            ctx.call(sub.instantiate, app2, {})
+            x = ctx.index(ctx.getattr(sub, "instructions"), 0)
         else:
             app2 = app
         if what in ("operand", "both"):
